@@ -982,14 +982,23 @@ def _type_resolver(ck, repo):
     ok = len(tcalls) == 1 and [unparse(x) for x in tcalls[0].args] == [ap[0], f"{ap[2]}.context", ap[1], ap[5]]
     ck.ob("abstract_coercer calls the chosen type resolver once with (result, ctx, info, abstract type)", ok, a,
           tcalls[0] if tcalls else a.node, construct="abstract:call")
+    # resolved on the function's path (intermediates substituted), calls bound through the callee's signature
+    from ..pathtab import outcome_rows as _rows
+    from ..q import bound_args
+    arow = [r_ for r_ in _rows(av) if r_["exit"] == "return_exit"]
+    sub_ = arow[0]["sym"]["__sub__"] if arow else (lambda e_: e_)
     ev = av.one_call("ensure_valid_runtime_type")
-    ok = tcalls and ev.args and ev.args[0] is tcalls[0] and arg_text(ev, 2) == ap[5]
-    ck.ob("abstract_coercer validates the resolver's answer against this abstract type", bool(ok), a, ev, construct="abstract:validate")
-    evs = av.stmt_of(ev)
-    rt = unparse(evs.targets[0]) if isinstance(evs, ast.Assign) else None
+    eb = bound_args(repo, a.module, ev, sub_) or {}
+    tcall_txt = unparse(sub_(tcalls[0])) if tcalls else None
+    ep = repo.func("tartiflette/coercers/outputs/abstract_coercer.py", "ensure_valid_runtime_type").positional_params
+    ok = tcalls and eb.get(ep[0]) == tcall_txt and eb.get(ep[2]) == ap[5]
+    ck.ob("abstract_coercer validates the resolver's answer against this abstract type", bool(ok), a, ev, construct="abstract:validate", detail=str(eb))
     cov = av.one_call("complete_object_value")
-    ok = unparse(cov.args[-1]) == rt and [unparse(x) for x in cov.args[1:5]] == [ap[1], ap[2], ap[3], ap[4]]
-    ck.ob("abstract_coercer completes the value as the validated runtime object type", ok, a, cov, construct="abstract:complete")
+    cb = bound_args(repo, a.module, cov, sub_) or {}
+    cpp = repo.func("tartiflette/coercers/outputs/common.py", "complete_object_value").positional_params
+    ev_txt = unparse(sub_(ev))
+    ok = len(cpp) >= 6 and cb.get(cpp[5]) == ev_txt and [cb.get(x) for x in cpp[1:5]] == [ap[1], ap[2], ap[3], ap[4]]
+    ck.ob("abstract_coercer completes the value as the validated runtime object type", ok, a, cov, construct="abstract:complete", detail=str(cb))
     # complete_object_value executes the merged sub-selection of the runtime type
     co = repo.func("tartiflette/coercers/outputs/common.py", "complete_object_value")
     cv = FuncView(co)
